@@ -28,6 +28,7 @@ RULE = (
     "flip of the whole reply PDU (quick: all header / trailer / signature bits + every 8th body bit; thorough: all); pad_length / auth_len / frag_len / "
     "alloc_hint rewrites; replay of an earlier reply on the same connection; scripted context with header signing off for header/trailer flips. "
     "distinct = (tamper class, position, op, api); non-trivial = the client read the tampered reply (counted by the transport)"
+    " Also: replies the DC legitimately fragments with attacker fragments substituted (tail / middle); request-level cases incl. empty and odd stubs without verification trailer; level / provider downgrade; unsealed extra fragments; stripped bind_ack verifier."
 )
 ASSUMPTIONS = [
     "pyspnego's NTLM is the genuine security context (Kerberos cannot be exercised offline)",
